@@ -161,6 +161,12 @@ class SymK(KBase):
             self.names.append((name, 'chars', items))
             return s
 
+    def untraced(self, f):
+        """run f with CrossHair tracing off (for building concrete C-level objects whose CrossHair model is incomplete)"""
+        from crosshair.tracers import NoTracing
+        with NoTracing():
+            return f()
+
     def assume(self, cond):
         from crosshair.util import IgnoreAttempt
         if not cond:
@@ -311,6 +317,9 @@ class ConcK(KBase):
 
     def chars(self, name, k, lo=0, hi=127):
         return ''.join(chr(c) for c in self._get(name)['chars'])
+
+    def untraced(self, f):
+        return f()
 
     def assume(self, cond):
         if not cond:
